@@ -108,6 +108,34 @@ def dump_code(co, opc, version, api=None):
             if again != first or third != first:
                 ent["reiter"] = {"first": len(first), "second": len(again), "third": len(third),
                                  "third_first_offset": third[0][0] if third else None}
+            # two iterators over one FRESH object advancing in turn (look-ahead scans: zip(bc, islice(bc, 1, None)),
+            # nested loops): each is its own pass over the code
+            fresh = Bytecode(co, opc)
+            ia, ib = iter(fresh), iter(fresh)
+            la, lb = [], []
+            step = 0
+            while True:
+                step += 1
+                moved = False
+                for it_, acc, n in ((ia, la, 1), (ib, lb, 2 if step % 2 else 1)):
+                    for _ in range(n):
+                        x = next(it_, None)
+                        if x is not None:
+                            acc.append([x.offset, x.opcode, x.arg])
+                            moved = True
+                if not moved or step > 100000:
+                    break
+            if la != first or lb != first:
+                ent["reiter"] = {"interleaved": True, "first": len(first), "a": len(la), "b": len(lb),
+                                 "a_offsets": [x[0] for x in la[:6]], "b_offsets": [x[0] for x in lb[:6]]}
+            fresh2 = Bytecode(co, opc)
+            outer = 0
+            for _x in fresh2:
+                outer += 1
+                for _y in fresh2:
+                    break
+            if outer != len(first):
+                ent["reiter"] = {"nested": True, "first": len(first), "outer": outer}
         ent["exc"] = None if bc.exception_entries is None else [[e.start, e.end, e.target, e.depth, bool(e.lasti)] for e in bc.exception_entries]
     except Exception as e:  # noqa
         ent["instrs_err"] = type(e).__name__ + ":" + str(e)[:100]
